@@ -121,6 +121,21 @@ def _sweep(ctx, u, case, t, p, o):
                       lambda: {"fn": which + "_res", "swept": name, "dtype": sw["dtype"], "values": sw["values"], "call": rep,
                                "returned": got, "expected_per_element": expected, "outcome": outcome,
                                "array_after_call": [float(x) for x in arr]})
+    # a result the caller still HOLDS must survive later sweeps of the same shape (by either function)
+    name_t = "l_mm" if sw["param"] == "length" else sw["param"]
+    name_p = "l" if sw["param"] == "length" else sw["param"]
+    try:
+        held = u.trace_res(**dict(dict(t, **o), **{name_t: arr}))
+        want = [float(x) for x in np.asarray(held, dtype=float).ravel()]
+        other = arr * 1.5 + (1 if sw["dtype"] == "int" else 0.5)
+        u.trace_res(**dict(dict(t, **o), **{name_t: other}))
+        u.plane_res(**dict(dict(p, **o), **{name_p: other}))
+        now = [float(x) for x in np.asarray(held, dtype=float).ravel()]
+        ctx.check("trace.sweep_elementwise", now == want,
+                  lambda: {"fn": "trace_res", "swept": name_t, "why": "an array returned earlier changed when later sweeps were evaluated",
+                           "returned_then": want, "same_object_now": now})
+    except Exception as e:  # noqa: BLE001
+        ctx.check("trace.sweep_elementwise", False, lambda: {"fn": "trace_res", "swept": name_t, "outcome": "%s: %s" % (type(e).__name__, e)})
     ctx.count("sweep", "%s/%s" % (sw["param"], sw["dtype"]))
 
 
